@@ -182,6 +182,10 @@ Section Rend.
     let o := (32 + vz (r_code p) + az (r_code p))%nat in if r_curt p then b2z o else o.
   (* the non-zeroth overhead is NOT reduced when .curt (as in the code) *)
   Definition noz (p : rparams) : nat := (32 + vz (pair_of (r_code p)) + az (pair_of (r_code p)))%nat.
+  (* the size setter: size = max(requested or MaxGramSize, zeroth overhead + 1,
+     non-zeroth overhead + 1) *)
+  Definition min_size (p : rparams) : nat := Nat.max (S (zoz p)) (S (noz p)).
+  Definition eff_size (p : rparams) (req : nat) : nat := Nat.max req (min_size p).
   Definition zbz (p : rparams) : nat := (r_size p - zoz p)%nat.
   Definition nbz (p : rparams) : nat := (r_size p - noz p)%nat.
 
